@@ -1,4 +1,4 @@
-\* exhaustive case export + property check (thorough): every admissible history with exactly 2 operations ([op,op] or [op][op]), 2 names, 3 label sets (2 shapes), 2 groups, 2 hooks (first batch from h1: hooks are interchangeable), values {0.5, 1.0}, all 14 invalid ops; no VIEW, every history is one state
+\* exhaustive case export + property check (thorough): every admissible history with exactly 2 operations ([op,op] or [op][op]), 2 names, 3 label sets (2 shapes), 2 groups, 2 hooks (first batch from h1: hooks are interchangeable), values {0.5, 1.0}, all 14 invalid ops + 3 truncations of the last operation; no VIEW, every history is one state
 SPECIFICATION Spec
 CONSTANTS
   Names = {"m1", "m2"}
